@@ -5,17 +5,17 @@ CONSTANTS
   UserTypes = {"A"}
   BadTypes = {"X"}
   ParamNames = {"p1"}
-  Vals = {2}
+  Vals = {1, 2}
   LdtVals = {2}
   LDT0 = 1
-  Procs <- Procs1
+  Procs <- Procs2
   ProcTopics <- PTopA
-  ProcParams <- PParNone
+  ProcParams <- PParLdt
   FreeNodes = FALSE
-  Delays <- Delay2
+  Delays <- Delay12
   Offsets <- Off0
-  MaxPub = 3
-  Horizon = 2
+  MaxPub = 5
+  Horizon = 4
   Budgets = {1}
   Kinds = {"sink", "relay", "follower"}
   Acyclic = TRUE
